@@ -38,6 +38,9 @@ type client struct {
 	stalled   bool
 	firstB    int // index of the first broadcast issued after this client registered
 	flushes   int
+	// pingDue is when the handler's 5 s ping timer will fire (zero: not running, i.e. the
+	// client is inside its ping write and the timer has not been re-armed yet)
+	pingDue time.Time
 }
 
 func (c *client) Header() http.Header { return c.hdr }
@@ -214,7 +217,11 @@ func (w *world) mustFail(c *client) bool {
 
 func (w *world) release(c *client) {
 	p := w.parked(c)
+	isPing := strings.Contains(p.Detail, "data: ping")
 	w.k.Run(p, kernel.Decision{})
+	if isPing {
+		c.pingDue = time.Now().Add(5 * time.Second) // the handler re-arms its timer right after the write
+	}
 }
 
 func (w *world) fail(c *client) {
@@ -265,6 +272,9 @@ func (w *world) run() {
 		}
 		acts = append(acts, act{wBcast, w.broadcast})
 		allIdleOrStalled := true
+		// maxAdv: how far the clock may move without a ping timer firing for a client that is
+		// parked in an event write (which would later face a select with two ready cases)
+		maxAdv := time.Duration(1<<62 - 1)
 		for _, c := range w.clients {
 			c := c
 			if c.isGone() {
@@ -273,6 +283,11 @@ func (w *world) run() {
 			if w.parked(c) != nil {
 				if !c.stalled {
 					allIdleOrStalled = false
+					if strings.Contains(w.parked(c).Detail, "data: ping") {
+						// inside its ping write: the timer is not running
+					} else if d := time.Until(c.pingDue) - time.Millisecond; d < maxAdv {
+						maxAdv = d
+					}
 				}
 				if !w.mustFail(c) {
 					acts = append(acts, act{wRelease, func() { w.release(c) }})
@@ -300,6 +315,9 @@ func (w *world) run() {
 		}
 		if allIdleOrStalled {
 			acts = append(acts, act{wAdvance, w.advance})
+		} else if maxAdv >= time.Second {
+			// some healthy client is still inside a write: the clock may move, but not past its ping timer
+			acts = append(acts, act{wAdvance, func() { w.advanceBy(maxAdv) }})
 		}
 		ws := make([]int, len(acts))
 		for i, x := range acts {
@@ -320,6 +338,20 @@ func (w *world) advance() {
 	time.Sleep(d)
 	w.k.Quiesce()
 	w.k.Count("clock_advances", 1)
+}
+
+// advanceBy moves the clock while healthy clients are parked in event writes, staying
+// short of their ping timers.
+func (w *world) advanceBy(max time.Duration) {
+	ds := []time.Duration{time.Second, 1500 * time.Millisecond, 3 * time.Second, 4900 * time.Millisecond}
+	d := ds[w.t.Choose(len(ds), "advance-busy")]
+	if d > max {
+		d = max
+	}
+	w.note("advance %v (clients busy)", d)
+	time.Sleep(d)
+	w.k.Quiesce()
+	w.k.Count("clock_advances_while_client_in_write", 1)
 }
 
 func (w *world) drainAndCheck() {
